@@ -139,8 +139,20 @@ func newIsoStream() *isoStream {
 	return st
 }
 
-// feed runs the session's receive loop over data; a panic is what would end the session goroutine
-func (st *isoStream) feed(data []byte) (panicked bool) {
+// feed runs the session's receive loop over data on its own goroutine; a panic is what would end the
+// session goroutine, and a loop that does not come back within 3 s is stuck (e.g. on a wedged mutex)
+func (st *isoStream) feed(data []byte) (bad bool) {
+	res := make(chan bool, 1)
+	go func() { res <- st.feedNow(data) }()
+	select {
+	case p := <-res:
+		return p
+	case <-time.After(3 * time.Second):
+		return true
+	}
+}
+
+func (st *isoStream) feedNow(data []byte) (panicked bool) {
 	defer func() {
 		if recover() != nil {
 			panicked = true
